@@ -40,6 +40,12 @@ CLAIMS = {
          "sufficiency. The tie to the real ANTLR parser is the correspondence run: accept/reject AND the resulting tree are compared on all "
          "token strings up to length 4 over a 16-token alphabet (and 5 more alphabets up to length 3), random characters/tokens, generated "
          "valid programs and their mutations; panics, empty error lists, empty error texts and out-of-source positions are failing inputs."),
+ "C04": ("PARTIAL. Proved about the model's parser: for every chain length the tree built for a && / || chain has exactly the operands as "
+         "leaves in source order under nodes of that operator (balanced_tree, by induction on its fuel with the midpoint arithmetic discharged by lia); "
+         "for every n a run of n '!' or '-' yields the operand for even n and one application for odd n; every macro expands around its receiver and "
+         "arguments. Not yet proved: the general round trip compile(render(tree)) = tree. The run evaluates that round trip on the implementation for "
+         "every tree with <= 2 operators over the complete operator set in both renderings and for random deeper trees, compares the model's parser "
+         "with the real one on each text, and covers all chain lengths 2-64, prefix runs 1-6 and nested macros."),
  "C06": ("Theorems that Eval.eval (a structural Fixpoint transcribing Value::resolve) returns the left operand's outcome "
          "and host-call log alone when && / || are decided by it, evaluates exactly one branch of ?:, and propagates a "
          "left error - for every context and operand expression, hence at every depth and inside macro bodies. Tied to the "
